@@ -11,7 +11,7 @@ RULE = ("shapes enumerated exhaustively within the tier's bound (quick: 1..5 axe
         "axes and lengths 1..5); per shape: iter_indices history (elements+3 calls, len interleaved), every axis 0..d+1 x "
         "every position 0..len (in and out of range) view-iterator history continued 3 calls past exhaustion, iter_axis "
         "history, get AND get_mut (with a write through it: exactly that position changes) at every in-range index of small shapes plus out-of-range (up to two past the end) / wrong-length indices, sum along every "
-        "axis; debug build (thorough: also release). non-trivial = model output contains at least one yielded item; View::to_array of every axis view: shape, data, get at every index, views of the copy; histories continued on a clone of a partly consumed view iterator, along every axis")
+        "axis; debug build (thorough: also release). non-trivial = model output contains at least one yielded item; View::to_array of every axis view: shape, data, get at every index, views of the copy; histories continued on a clone of a partly consumed view iterator, along every axis; Iterator::last and count on the view iterator at every position of a history")
 
 
 def fmt(l):
@@ -95,6 +95,10 @@ def cases_for_shape(sh, rng, small):
             if ncons <= Ev:
                 cs.append("viewhist %s %d %d %s" % (fmt(sh), a_, rng.randrange(sh[a_]), ",".join(["x"] * ncons + ["c"] + ["x"] * (Ev - ncons + 2))))
         cs.append("viewhist %s %d %d %s" % (fmt(sh), a_, rng.randrange(sh[a_]), ",".join(rng.choice(["x", "x", "c", "1", "0"]) for _ in range(min(Ev + 3, 14)))))
+        # the provided methods of Iterator that the view iterator could override (last, count), asked at every position of a
+        # history, for every position along the axis: they speak of the items still to come
+        for i_ in range(sh[a_]):
+            cs.append("viewhist %s %d %d %s" % (fmt(sh), a_, i_, ",".join(["l", "n"] + [y for _ in range(min(Ev + 1, 6)) for y in ("x", "l", "n")])))
     cs.append("indiceshist %s %s" % (fmt(sh), ",".join(["1"] * (E // 2 + 3))))          # step_by(2)
     for a in range(d):
         data = [rng.randrange(-50, 50) for _ in range(E)]
